@@ -1,5 +1,7 @@
 import ColaVerif.Lemmas.OpAlgebra
 import ColaVerif.Lemmas.OpDtype
+import ColaVerif.Lemmas.OpMatmatDtype
+import ColaVerif.Lemmas.TreeWitnesses
 import ColaVerif.Basic.GInt
 
 /-!
@@ -117,6 +119,22 @@ omit [CommRing R] [StarRing R] [DecidableEq R] in
 theorem C02_left_product_dtype (A : Op R) (xdt : DType) : A.mmDtype xdt = A.mmDtypeSpec xdt :=
   Op.mmDtype_eq_spec A xdt
 
+/-- **C02 (left-product dtype, code model).**  `Op.rmmDt A x` computes the dtype of
+`A._rmatmat(X)` by recursion over the tree, in the case structure of `Op.rmm`: the explicit
+overrides (Dense, Triangular, Sparse, Product left-to-right, Sum, Diagonal, Transpose / Adjoint
+through `_matmat`, Sliced through its promoted buffer), else the default of `operator_base.py` —
+for a SelfAdjoint-reporting operator the dtype of `_matmat` on the conjugated operand, otherwise
+that of the shim's `linear_transpose` (`_matmat(eye(dtype=X.dtype)).T @ X.T`).  For every tree the
+constructors accept it is the join of the leaf dtypes and the operand's dtype; this is the value the
+driver prints as the code-model `resdt` of a left product. -/
+theorem C02_left_product_dtype_model (A : Op R) (hwf : A.wf = true) (xdt : DType) :
+    A.rmmDt xdt = A.mmDtypeSpec xdt := Op.rmmDt_eq_spec A hwf xdt
+
+/-- both branches of the default `_rmatmat` and `_matmat` agree on the dtype -/
+theorem C02_left_right_dtype (A : Op R) (hwf : A.wf = true) (xdt : DType) :
+    A.rmmDt xdt = A.mmDt xdt := by
+  rw [(Op.mmDt_rmmDt_eq A hwf).1, (Op.mmDt_rmmDt_eq A hwf).2]
+
 /-! ## involutions -/
 
 /-- `A.T.T` represents `A` again. -/
@@ -181,6 +199,26 @@ theorem C02_realTyped_needed :
   · simp only [Op.den, MatV.of_f, transposeM]
     decide
 
+/-- **witness with SelfAdjoint-reporting nodes**: `hermWitness` (Lemmas/TreeWitnesses.lean: a `Sum`
+of two declared-SelfAdjoint complex Hermitian 2 × 2 operators with non-real off-diagonal entries,
+the second a `no_dispatch` wrapper WITHOUT explicit `_rmatmat`) satisfies all four hypotheses, the
+root reports SelfAdjoint, and the theorems apply: its left product — which takes the conjugation
+shortcut at the second term — is `X` times the represented matrix, and `.H` (returned as the
+operator itself by the SelfAdjoint rule) represents the conjugate transpose -/
+theorem C02_hermWitness :
+    hermWitness.wf = true ∧ hermWitness.dupSlice = false ∧ hermWitness.HermOK ∧
+      hermWitness.RealTyped ∧ hermWitness.isa .selfAdjoint = true ∧
+      (Op.annot .selfAdjoint (.generic (.dense .c128 2 2 hermH'))).hasExplicitRmm = false ∧
+      (∀ b X, EqOn b hermWitness.cols (hermWitness.rmm b X).f (mmul hermWitness.rows X hermWitness.den.f)) ∧
+      EqOn hermWitness.cols hermWitness.rows hermWitness.adjointRule.den.f
+        (conjM (transposeM hermWitness.den.f)) ∧
+      EqOn hermWitness.cols hermWitness.rows hermWitness.transposeRule.den.f
+        (transposeM hermWitness.den.f) :=
+  have h := hermWitness_good
+  ⟨h.1, h.2.1, h.2.2.1, h.2.2.2, hermWitness_reports.1, hermWitness_reports.2,
+    fun b X => C02_left_product hermWitness h.1 h.2.1 h.2.2.1 b X,
+    C02_adjoint hermWitness h.2.2.1, C02_transpose hermWitness h.1 h.2.2.1 h.2.2.2⟩
+
 /-- non-vacuity: a nested complex-typed tree with annotation wrappers satisfying all hypotheses
 (`HermOK` holds because no node of it reports SelfAdjoint). -/
 example :
@@ -211,6 +249,9 @@ end C02
 #print axioms C02.C02_tower_shape
 #print axioms C02.C02_tower_dtype
 #print axioms C02.C02_left_product_dtype
+#print axioms C02.C02_left_product_dtype_model
+#print axioms C02.C02_left_right_dtype
+#print axioms C02.C02_hermWitness
 #print axioms C02.C02_TT
 #print axioms C02.C02_HH
 #print axioms C02.C02_shape_clause_needed
